@@ -86,6 +86,7 @@ type Engine struct {
 	modDir       string
 	globalNonNil map[*ssa.Global]bool
 	globalConsts map[*ssa.Global]*constGlobal
+	callOrdinals map[ssa.Instruction]int
 }
 
 func NewEngine() *Engine {
@@ -96,6 +97,7 @@ func NewEngine() *Engine {
 		globalRefs: map[*ssa.Global]Term{}, loopInfo: map[*ssa.Function]*FuncLoops{}, writeSets: map[*ssa.Function]*WriteSet{},
 		siteNames: map[ssa.Instruction]string{}, abstractions: map[string]bool{}, maxStates: 3000,
 		funcsByKey: map[string]*ssa.Function{}, specCache: map[string]bool{}, coverHits: map[string]bool{}, funcsTouched: map[string]bool{},
+		callOrdinals: map[ssa.Instruction]int{},
 	}
 	return e
 }
